@@ -347,10 +347,13 @@ class Result:
                 "harness": ", ".join(self.harness), "rule": " | ".join(self.rules), "extra": self.extra}
 
 
-def correspond(ctx, res, harness, mode, lines, holds, classify=None, trivial=None, vm="direct", exe_args=(), env=None, sample=3, rule="", per_chunk=200):
+HARNESS_LIBS = {"h_lz4": ["-llz4"]}
+
+
+def correspond(ctx, res, harness, mode, lines, holds, classify=None, trivial=None, vm="direct", exe_args=(), env=None, sample=3, rule="", per_chunk=200, libs=()):
     """Run `lines` through the real code (harness) and the Lean model (grdriver <mode>), diff, and evaluate the
     property predicate `holds(line, impl_out) -> (True|False|None, why)` on the implementation's own output."""
-    exe = build_harness(harness, vm=vm)
+    exe = build_harness(harness, vm=vm, libs=HARNESS_LIBS.get(harness, ()))
     impl = run_lines([exe] + list(exe_args), lines, env=env, per_chunk=per_chunk)
     model = run_lines([driver_path(), mode], lines, per_chunk=per_chunk) if ctx.model_ok else [None] * len(lines)
     tag = "%s/%s" % (harness, mode)
@@ -385,7 +388,7 @@ def replay_lines(ctx, obj, holds_by_mode):
     items = [obj] if "line" in obj else obj.get("first", [])
     still = False
     for it in items:
-        exe = build_harness(it["harness"], vm=it.get("vm", "direct"))
+        exe = build_harness(it["harness"], vm=it.get("vm", "direct"), libs=HARNESS_LIBS.get(it["harness"], ()))
         i = run_lines([exe] + it.get("exe_args", []), [it["line"]])[0]
         m = run_lines([driver_path(), it["mode"]], [it["line"]])[0] if driver_path().exists() else None
         ok, why = holds_by_mode[it["mode"]](it["line"], i)
